@@ -128,25 +128,28 @@ def n_complete(V, eos, T):
     return sum((V - 1) ** (l - 1) for l in range(1, T + 1)) + (V - 1) ** T
 
 
-def textbook_beam_search(next_lp, V, width, eos, finish_all, max_iters, tie_eps=2e-5):
+def textbook_beam_search(next_lp, V, width, eos, finish_all, max_iters):
     """Dictionary beam search.  `next_lp(path) -> list of V log-probabilities`.
 
     Returns (beam as list of (path, score) best first, steps taken, tie flag, done) where
     `done` tells that the search stopped by its own criterion before the step limit.
     Finished paths (ending with eos) are carried over unchanged.  The search for the element
     stops when its best path (or, finish_all, every path) is finished, or after max_iters
-    steps.  `tie` is set when two candidates among the best width+1 of some step are closer
-    than tie_eps (the float32 implementation may then legitimately order them differently).
+    steps.  `tie` is set when the float32 implementation may legitimately answer differently:
+    two candidates closer than 4e-5 (relative) at the pruning boundary of some step or, when
+    the best path decides termination, at the head of the beam.
     """
     beam = [((), 0.0)]
-    tie = False
-    steps = 0
-    terminated = False
+    tie, done, steps = False, False, 0
+
+    def eps(a):
+        return 4e-5 * max(1.0, abs(a))
+
     for t in range(max_iters):
         if eos is not None and t:
             fin = [len(p) > 0 and p[-1] == eos for p, _ in beam]
             if all(fin) if finish_all else fin[0]:
-                terminated = True
+                done = True
                 break
         cand = {}
         for p, s in beam:
@@ -157,10 +160,11 @@ def textbook_beam_search(next_lp, V, width, eos, finish_all, max_iters, tie_eps=
             for v in range(V):
                 cand[p + (v,)] = s + lp[v]
         ranked = sorted(cand.items(), key=lambda kv: (-kv[1], kv[0]))
-        top = ranked[: width + 1]
-        for a, b in zip(top, top[1:]):
-            if abs(a[1] - b[1]) < tie_eps:
-                tie = True
+        if len(ranked) > width and abs(ranked[width - 1][1] - ranked[width][1]) <= eps(ranked[width][1]):
+            tie = True
+        if eos is not None and not finish_all and len(ranked) > 1 and width > 1 \
+                and abs(ranked[0][1] - ranked[1][1]) <= eps(ranked[0][1]):
+            tie = True
         beam = ranked[:width]
         steps = t + 1
-    return beam, steps, tie, terminated
+    return beam, steps, tie, done
